@@ -111,12 +111,14 @@ def main(chk):
     logging.disable(logging.ERROR)
     rnd = random.Random(chk.seed)
     tmp = os.getcwd()
-    maxgen, depth = (2, 4) if chk.quick else (2, 5)   # (3, 5): 12k states per pipeline but ~10 GB of terms each
+    # depth 5 (14k+ states per pipeline, > 12 GB of terms each since the fault actions) does not fit: both tiers model-check
+    # depth 4, the thorough tier replays ten times as many of the generated histories
+    maxgen, depth = (2, 4)
     histories = []
     # one TLC process per pipeline, four at a time (two in the thorough tier: ~8 GB of terms per process at depth 5)
-    with concurrent.futures.ThreadPoolExecutor(max_workers=4 if chk.quick else 2) as pool:
+    with concurrent.futures.ThreadPoolExecutor(max_workers=4) as pool:
         runs = list(pool.map(lambda pipe: chk.tlc('Lifecycle', cfg(pipe, maxgen, depth, os.path.join(tmp, f'lc{pipe}.cfg')),
-                                                  require=['Train', 'Load', 'Race'], workers=4, heap='5g' if chk.quick else '12g'),
+                                                  require=['Train', 'Load', 'Race'], workers=4, heap='5g'),
                              range(1, NPIPES + 1)))
     for pipe, res in enumerate(runs, start=1):
         recs = res.json_prints()
